@@ -187,13 +187,15 @@ uint64_t cmb_timeseries_summarize(const struct cmb_timeseries *tsp,
 
     cmb_assert_release(tsp->ta != NULL);
     cmb_assert_debug(dsp->xa != NULL);
-    for (uint64_t ui = 0u; ui < un - 1u; ui++) {
+    /* Every sample counts by its own weight, the open-ended last one in time
+     * has zero weight wherever a sort has placed it and is ignored by the add */
+    for (uint64_t ui = 0u; ui < un; ui++) {
         const double x = dsp->xa[ui];
         const double w = tsp->wa[ui];
         (void)cmb_wtdsummary_add(wsp, x, w);
     }
 
-    return un - 1u;
+    return cmb_wtdsummary_count(wsp);
 }
 
 void cmb_timeseries_print(const struct cmb_timeseries *tsp, FILE *fp)
